@@ -18,6 +18,7 @@ import (
 	"sort"
 	"strconv"
 	"strings"
+	"time"
 )
 
 // Line is a flat list of integers; floats are transported as IEEE-754 bit
@@ -95,6 +96,8 @@ type Prop struct {
 	// Run decodes one case, runs it against the real implementation and
 	// returns the case line (inputs + observed outputs).
 	Run func(raw []byte) (*Line, error)
+	// Timeout per case (0 = caseTimeout).
+	Timeout time.Duration
 }
 
 var registry = map[string]*Prop{}
@@ -113,18 +116,42 @@ func catch(f func()) (panicked bool, msg string) {
 	return
 }
 
+// caseTimeout bounds one case on the real implementation; a case that exceeds it
+// is reported as "!HANG" (possible non-termination) and the harness stops.
+var caseTimeout = 30 * time.Second
+
 func runOne(p *Prop, raw []byte, out *bufio.Writer) {
-	var line *Line
-	var err error
-	pan, msg := catch(func() { line, err = p.Run(raw) })
-	if pan {
-		fmt.Fprintf(out, "!HARNESS-PANIC %s # %s\n", strings.ReplaceAll(msg, "\n", " "), raw)
-	} else if err != nil {
-		fmt.Fprintf(out, "!BADCASE %v # %s\n", err, raw)
-	} else {
-		fmt.Fprintf(out, "%s # %s\n", line.String(), raw)
+	type res struct {
+		line *Line
+		err  error
+		pan  bool
+		msg  string
 	}
-	out.Flush()
+	ch := make(chan res, 1)
+	go func() {
+		var r res
+		r.pan, r.msg = catch(func() { r.line, r.err = p.Run(raw) })
+		ch <- r
+	}()
+	to := caseTimeout
+	if p.Timeout > 0 {
+		to = p.Timeout
+	}
+	select {
+	case r := <-ch:
+		if r.pan {
+			fmt.Fprintf(out, "!HARNESS-PANIC %s # %s\n", strings.ReplaceAll(r.msg, "\n", " "), raw)
+		} else if r.err != nil {
+			fmt.Fprintf(out, "!BADCASE %v # %s\n", r.err, raw)
+		} else {
+			fmt.Fprintf(out, "%s # %s\n", r.line.String(), raw)
+		}
+		out.Flush()
+	case <-time.After(to):
+		fmt.Fprintf(out, "!HANG no result after %v # %s\n", to, raw)
+		out.Flush()
+		os.Exit(0)
+	}
 }
 
 func main() {
